@@ -1,4 +1,5 @@
-import EinxModel.Proofs.Notation
+import EinxModel.Proofs.NotationSpace
+import EinxModel.Proofs.NotationPrintFinal
 /-!
 # C12 — the expression parser is total and stable under re-printing and extra spacing
 
@@ -127,8 +128,8 @@ theorem parse_tree_positions_in_range (text : Str) (x : Expr) (h : parseOp text 
 Reading (DESIGN.md, C12): a space is redundant if it is adjacent to another space, at the beginning or end of the string,
 directly after an opening / before a closing delimiter, or adjacent to `->`, `,`, `+`.  Proved here: a space is always a
 token of its own; the duplicate-space pass makes the token sequence independent of the number of adjacent spaces; leading
-and trailing space tokens are invisible to `parse`.  The lift to `parseOp` for spaces next to operators and delimiters is
-covered by the metamorphic search (oracle O3), not by a theorem. -/
+and trailing space tokens are invisible to `parse`.  The lift to `parseOp` for ALL redundant-space slots is section (c') below
+(`space_invariance`); the metamorphic search (oracle O3) checks the same statement on the real parser. -/
 
 /-- A space is lexed as a one-character token whatever follows, and lexing restarts after it. -/
 theorem segment_space (cs : Str) (pos : Nat) :
@@ -226,6 +227,95 @@ theorem leading_spaces_tokens (cs : Str) :
         · simp only [List.map_cons, h.1, ih vs false h.2]
   exact dd _ _ true (shift cs _ _ _ _ [])
 
+
+/-! ## (c') Redundant spaces — lifted to `parseOp`
+
+`RedundantAt xs ys` (Proofs/NotationSim.lean) is the decidable predicate "a space between `xs` and `ys` is redundant":
+`xs` is empty, `ys` is empty, `xs` ends with one of the literals ` ` `(` `[` `,` `+` `->`, or `ys` starts with one of
+` ` `)` `]` `,` `+` `->`.  These are exactly the slot classes of DESIGN.md (adjacent to a space, begin/end of the string,
+directly after an opening / before a closing delimiter, adjacent to `->`, `,`, `+`); a space before `...`, before an
+opening or after a closing delimiter is NOT redundant (witnesses below).
+
+Equality "up to positions and fresh ids" is `RSim φ` (Proofs/NotationSim.lean): both results are trees related by
+`ESim φ` — same constructors, same named axes, same values; positions arbitrary; every fresh name `unnamed.p` renamed to
+`unnamed.(φ p)` and every ellipsis id `d` replaced by `φ d` (the model derives both from token positions, the real code
+draws `uuid4()`) — or both are errors raised at the same site (`ErrSim`: same `SynKind`/`IntKind`, carets may differ).
+With `φ` injective this is a renumbering of the fresh ids.  Inserting and deleting are the same statement read in the two
+directions.
+
+Proof layers (each in its own file under Proofs/): `segment_insert` (lexer: the longer text has exactly one more token,
+a space, the later tokens are shifted by one), `tree_insert` (duplicate-space pass and delimiter stack: the additional
+space is dropped as a duplicate, or is one additional atom at the edge of a group / of the root or next to an operator
+atom), `parse_rel` (`parse` strips it or it ends up at the edge of an operand of the lowest-precedence operator of its
+level), `finish_sim` (the `move_up` passes, the bracket pass and the post-checks only compare names for equality). -/
+
+/-- `space_invariance`: inserting (or, read from right to left, deleting) one redundant space does not change the result
+    of `parse_op` up to positions and an injective renumbering `φ` of the fresh ids; errors stay errors of the same kind. -/
+theorem space_invariance (xs ys : Str) (h : RedundantAt xs ys = true) :
+    ∃ φ : Nat → Nat, Function.Injective φ ∧ RSim φ (parseOp (xs ++ ys)) (parseOp (xs ++ ' ' :: ys)) := by
+  obtain ⟨k, hk⟩ := parseOp_insert xs ys h
+  exact ⟨shiftAt k, shiftAt_injective k, hk⟩
+
+/-- `text[:k] + " " + text[k:]` -/
+def insertSpace (s : Str) (k : Nat) : Str := s.take k ++ ' ' :: s.drop k
+
+/-- Position `k` of `s` is a redundant-space slot. -/
+def redundantSlot (s : Str) (k : Nat) : Bool := RedundantAt (s.take k) (s.drop k)
+
+/-- The same statement by position. -/
+theorem space_invariance_at (s : Str) (k : Nat) (h : redundantSlot s k = true) :
+    ∃ φ : Nat → Nat, Function.Injective φ ∧ RSim φ (parseOp s) (parseOp (insertSpace s k)) := by
+  have := space_invariance (s.take k) (s.drop k) h
+  rwa [List.take_append_drop] at this
+
+/-- Trees: the structure (`shape`: positions, fresh names and ellipsis ids erased) is the same, in both directions. -/
+theorem space_invariance_tree (xs ys : Str) (h : RedundantAt xs ys = true) :
+    (∀ x, parseOp (xs ++ ys) = .ok x → ∃ y, parseOp (xs ++ ' ' :: ys) = .ok y ∧ x.shape = y.shape) ∧
+    (∀ y, parseOp (xs ++ ' ' :: ys) = .ok y → ∃ x, parseOp (xs ++ ys) = .ok x ∧ x.shape = y.shape) := by
+  obtain ⟨φ, _, hr⟩ := space_invariance xs ys h
+  constructor
+  · intro x hx
+    rw [hx] at hr
+    obtain ⟨y, hy, hxy⟩ := hr.ok_left
+    exact ⟨y, hy, ESim.shape_eq _ _ hxy⟩
+  · intro y hy
+    rw [hy] at hr
+    cases hx : parseOp (xs ++ ys) with
+    | error e => rw [hx] at hr; exact hr.elim
+    | ok x => rw [hx] at hr; exact ⟨x, rfl, ESim.shape_eq _ _ hr⟩
+
+/-- Errors: an error stays an error raised at the same site (same kind), in both directions. -/
+theorem space_invariance_error (xs ys : Str) (h : RedundantAt xs ys = true) :
+    (∀ e, parseOp (xs ++ ys) = .error e → ∃ e', parseOp (xs ++ ' ' :: ys) = .error e' ∧ ErrSim e e') ∧
+    (∀ e', parseOp (xs ++ ' ' :: ys) = .error e' → ∃ e, parseOp (xs ++ ys) = .error e ∧ ErrSim e e') := by
+  obtain ⟨φ, _, hr⟩ := space_invariance xs ys h
+  constructor
+  · intro e he
+    rw [he] at hr
+    exact hr.error_left
+  · intro e' he'
+    rw [he'] at hr
+    cases hx : parseOp (xs ++ ys) with
+    | error e => rw [hx] at hr; exact ⟨e, rfl, hr⟩
+    | ok x => rw [hx] at hr; exact hr.elim
+
+/-- Same outcome class and same structure (Boolean, for the witnesses below). -/
+def sameOutcome (r r' : Res Expr) : Bool :=
+  match r, r' with
+  | .ok x, .ok y => x.shape.beq y.shape
+  | .error _, .error _ => true
+  | _, _ => false
+
+/-- The slot classes that DESIGN.md excludes are really not redundant: a space between a name and `...`, before an opening
+    delimiter and after a closing delimiter changes the result (tree vs. error, or a different tree); and the position
+    inside the literal `->` is not a slot. -/
+theorem non_redundant_slots_change_result :
+    (RedundantAt "a".toList "...".toList = false ∧ sameOutcome (parseOp "a...".toList) (parseOp "a ...".toList) = false) ∧
+    (RedundantAt "a".toList "(b)".toList = false ∧ sameOutcome (parseOp "a(b)".toList) (parseOp "a (b)".toList) = false) ∧
+    (RedundantAt "(a)".toList "b".toList = false ∧ sameOutcome (parseOp "(a)b".toList) (parseOp "(a) b".toList) = false) ∧
+    (RedundantAt "a-".toList ">b".toList = false ∧ sameOutcome (parseOp "a->b".toList) (parseOp "a- >b".toList) = false) := by
+  decide +kernel
+
 /-! ## (d) Re-printing -/
 
 /-- Parse `s`, print the tree, parse the printed text: does the structure (positions, fresh names, ellipsis ids erased) survive? -/
@@ -248,11 +338,72 @@ theorem print_parse_refuted_braces :
     prints as `.........`, which is three `...` tokens in a row. -/
 theorem print_parse_refuted_nested_ellipsis : roundTrips "[[......]...]" = false := by decide +kernel
 
+/-- Third counterexample (found while proving `print_parse_partial`): the first `move_up` pass wraps each alternative of
+    `((a + b) -> c)` in a `FlattenedAxis`, so the tree contains a `FlattenedAxis` directly over a `ConcatenatedAxis`; it
+    prints as `((a + b))`, and the parser collapses the doubled parentheses to the bare `ConcatenatedAxis`. -/
+theorem print_parse_refuted_flat_concat : roundTrips "((a + b) -> c)" = false := by decide +kernel
+
 /-- The printed forms of the two counterexamples. -/
 theorem print_parse_witness_texts :
     (Einx.Extracted.ellipsisOpen = "{" ∧ Einx.Extracted.ellipsisClose = "}" →
       (parseOp "[[a b]...]".toList).toOption.map (fun x => String.ofList x.print) = some "[{a b}...]") ∧
     (parseOp "[[......]...]".toList).toOption.map (fun x => String.ofList x.print) = some "[.........]" := by decide +kernel
+
+/-! ### `print_parse_partial`
+
+Full statement (FALSE, three refutations above): for every `t` with `parseOp s = .ok t`, `parseOp t.print = .ok y` with
+`y.shape = t.shape`.
+
+Proved: the statement for every tree that satisfies the decidable predicate `Printable` (Proofs/NotationPrintDefs.lean):
+* `PRoot t` — the normal form of `parse_op`'s results, WITHOUT the three patterns whose printed form is not (or not
+  faithfully) in the notation: an `Ellipsis` over a `List` (printed with braces) or over an `Ellipsis` (printed `......`),
+  and a `FlattenedAxis` directly over a `ConcatenatedAxis` (printed `((a + b))`, re-parsed without the outer parentheses);
+  i.e. `Op` of one or two `Args`; below them named axes with a valid name, numeric axes, `FlattenedAxis` (not over a
+  `FlattenedAxis`/`ConcatenatedAxis`), `Brackets` (not nested, not empty), `Ellipsis` over the anonymous axis or over one
+  axis / flattened axis / brackets / concatenation, `ConcatenatedAxis` of ≥ 2 axes or flattened axes, `List`s of 0 or ≥ 2
+  non-list children; concatenations and ellipses ARE covered;
+* two restrictions of the proof, not of the truth (both kinds of tree do round-trip, see `printable_restrictions`):
+  no numeric axis inside brackets (the proof that the fresh names of two numeric axes of the re-parsed tree differ — needed
+  for the inconsistent-brackets check — is missing), and the printed text has no two adjacent spaces (it has them only
+  when the left side of `->` ends with an empty argument, `"a,  -> b"`; the duplicate-space pass is not modelled in the
+  proof);
+* `t` itself passes the inconsistent-brackets check.
+Missing for the statement about the image of `parse_op`: a proof that every result of `parseOp` without the three patterns
+satisfies `PRoot` (normal form of the parser's output; checked by `printable_image_samples` and, during development, on
+all 177155 texts of ≤ 5 symbols).
+
+Layers (Proofs/): `textsOK_PRoot` (the printed text is the concatenation of well separated token texts),
+`segment_pieces`/`lex_pieces` (lexer), `dedup_no_adj`, `buildTree_texts` (delimiter stack), `parse_printed` (`parse`
+inverts every printing rule: axis, number, parentheses, brackets, `...`, ` + `, ` `, `, `, ` -> `), `finish_nf` (the passes
+after `parse` only add the `Op`/`Args` wrappers on a normal form), `conflict_free_of_shape` (the bracket check). -/
+
+/-- `print_parse_partial`: for every printable tree — in particular for every printable result of `parse_op` — the printed
+    text is accepted by `parse_op` and yields the same tree up to positions, fresh names and ellipsis ids. -/
+theorem print_parse_partial (t : Expr) (h : Printable t = true) :
+    ∃ y, parseOp t.print = .ok y ∧ y.shape = t.shape := parseOp_print h
+
+/-- The same, stated for the image of `parse_op`. -/
+theorem print_parse_image_partial (s : Str) (t : Expr) (_ : parseOp s = .ok t) (h : Printable t = true) :
+    ∃ y, parseOp t.print = .ok y ∧ y.shape = t.shape := parseOp_print h
+
+/-- `Printable` of the tree of a text (false for texts that do not parse). -/
+def printableOf (s : String) : Bool :=
+  match parseOp s.toList with
+  | .ok t => Printable t
+  | .error _ => false
+
+/-- Non-vacuity: results of `parse_op` covering every node kind, both `move_up` passes and the bracket pass are printable. -/
+theorem printable_image_samples :
+    (["a b c", "a (b c) -> (a b) c", "a [b c] 1, d -> a d", "(a + b) c", "(a -> b) c, d", "(a , b) (c -> d)", "[[a] b] c",
+      "a ->", ", a", "", "a... b", "[a...]", "(a b)...", "... a", "(a + 1)... [b]... 2", "a (b (c d)) -> , ()"].all printableOf) = true := by
+  decide +kernel
+
+/-- The three refuted patterns are not `Printable`; and the two restrictions of the proof exclude trees that do round-trip
+    (a numeric axis inside brackets; adjacent spaces in the printed text). -/
+theorem printable_restrictions :
+    (printableOf "[[a b]...]" = false ∧ printableOf "[[......]...]" = false ∧ printableOf "((a + b) -> c)" = false) ∧
+    (printableOf "a [1]" = false ∧ roundTrips "a [1]" = true) ∧
+    (printableOf "a, -> b" = false ∧ roundTrips "a, -> b" = true) := by decide +kernel
 
 /-- Round trip *tested* (a `decide` on samples is a test, not a theorem) on descriptions covering every node kind, both
     `move_up` passes and the redundant-bracket pass; the general statement is false (above) and its true part is checked
@@ -285,6 +436,43 @@ example : isDigitChar '²' = true → errOf (parseOp "²".toList) = some (.inter
 /-- Without those two causes the same inputs are ordinary syntax errors (what the proposed fixes produce). -/
 example : "|" ∉ Einx.Extracted.naryOps → errOf (parseOp "a | a".toList) = some (.syntax .invalidToken [2] []) := by
   decide +kernel
+
+def isOk (r : Res Expr) : Bool := match r with | .ok _ => true | .error _ => false
+
+/-- `space_invariance` instantiated on a concrete text whose result is a tree (next example)… -/
+example : ∃ φ : Nat → Nat, Function.Injective φ ∧ RSim φ (parseOp "a [b c]... (d+1) -> a,d".toList) (parseOp "a [b c]... (d+1) ->  a,d".toList) :=
+  space_invariance "a [b c]... (d+1) -> ".toList "a,d".toList (by decide)
+
+example : isOk (parseOp "a [b c]... (d+1) -> a,d".toList) = true := by decide +kernel
+
+/-- …and one redundant slot of every class, both sides being trees. -/
+example :
+    [("", "a b"), ("a b", ""), ("a (", "b c) 2"), ("a (b c", ") 2"), ("a [", "b]"), ("a [b", "]"), ("a,", "b"), ("a", ",b"),
+      ("(a+", "b)"), ("(a", "+b)"), ("a->", "b"), ("a", "->b"), ("a ", "b"), ("a", " b")].all
+        (fun p => RedundantAt p.1.toList p.2.toList && isOk (parseOp (p.1 ++ p.2).toList) && isOk (parseOp (p.1 ++ " " ++ p.2).toList)) = true := by
+  decide +kernel
+
+/-- …and on an erroneous text: both sides report the unclosed parenthesis (at different positions). -/
+example : errOf (parseOp "a, (b".toList) = some (.syntax .openingNotClosed [3] []) ∧
+    errOf (parseOp "a , (b".toList) = some (.syntax .openingNotClosed [4] []) ∧ RedundantAt "a".toList ", (b".toList = true := by
+  decide +kernel
+
+/-- The fresh ids really are renumbered: the numeric axis after the slot gets a different name. -/
+example : (parseOp "a,2".toList).toOption.map (fun x => String.ofList x.print) = some "a, 2" ∧
+    sameOutcome (parseOp "a,2".toList) (parseOp "a, 2".toList) = true := by decide +kernel
+
+/-- `print_parse_partial` on a hand-written tree (not a parser result: arbitrary positions and ids) with brackets under an
+    ellipsis, a concatenation with a numeric axis, and two sides. -/
+def sampleTree : Expr :=
+  .op [.args [.list [.axis "a".toList none 3 4,
+                     .ellipsis (.brackets (.list [.axis "b".toList none 0 0, .axis "c".toList none 0 0] 0 0) 0 0) 7 0 0,
+                     .concat [.axis "d".toList none 0 0, .axis "x".toList (some 2) 0 0] 0 0] 0 0] 0 0,
+       .args [.list [] 0 0, .flat (.axis "a".toList none 0 0) 0 0] 0 0] 0 0
+
+example : Printable sampleTree = true ∧ String.ofList sampleTree.print = "a [b c]... (d + 2) -> , (a)" := by decide +kernel
+
+example : Printable sampleTree = true → ∃ y, parseOp sampleTree.print = .ok y ∧ y.shape = sampleTree.shape :=
+  print_parse_partial sampleTree
 
 /-- `parse_tree_positions_in_range` on a non-trivial tree. -/
 example : ∃ x, parseOp "a [b c]... (d + 1) -> a".toList = .ok x ∧ ExprOK 23 x :=
